@@ -152,6 +152,20 @@ def apply_op(d, op, cls):
         return d @ d
     if name == "sandwich":
         return d >> d[::-1]
+    if name == "then_multi":
+        return d.then(pool(cls)[op[1]], pool(cls)[op[2]])
+    if name == "tensor_multi":
+        return d.tensor(pool(cls)[op[1]], pool(cls)[op[2]])
+    if name == "lshift":
+        return d << pool(cls)[op[1]]
+    if name == "rlshift":
+        return pool(cls)[op[1]] << d
+    if name == "bubble":
+        return d.bubble()
+    if name == "open_bubbles":
+        return (d.bubble() @ d).bubble().open_bubbles()
+    if name == "normal_form_normalizer":
+        return d.normal_form(normalizer=k.m.Diagram.normalize if cls == "monoidal" else None, left=op[1])
     raise ValueError(op)
 
 
@@ -197,6 +211,17 @@ def enabled_ops(d, cls, rich=True):
                 yield ("permute", list(p))
         yield ("self_tensor",)
         yield ("sandwich",)
+        npool = len(pool(cls))
+        for a in range(npool):
+            yield ("lshift", a)
+            yield ("rlshift", a)
+            for b in range(npool):
+                yield ("then_multi", a, b)
+                yield ("tensor_multi", a, b)
+        yield ("bubble",)
+        yield ("open_bubbles",)
+        yield ("normal_form_normalizer", False)
+        yield ("normal_form_normalizer", True)
         if cls == "rigid":
             yield ("transpose", False)
             yield ("transpose", True)
@@ -364,6 +389,24 @@ def negative_static(params):
             for r in tys:
                 attempt("cups(%s,%s)" % (l, r), lambda l=l, r=r: k.Diagram.cups(k.ty(l), k.ty(r)))
                 attempt("caps(%s,%s)" % (l, r), lambda l=l, r=r: k.Diagram.caps(k.ty(l), k.ty(r)))
+    if cls == "rigid":
+        D = k.Diagram
+        small = build.all_types(["n", "m.r", "p.l"], 2)
+        for l in small:
+            for r in small:
+                L, R = k.ty(l), k.ty(r)
+                attempt("fa(%s,%s)" % (l, r), lambda L=L, R=R: D.fa(L, R))
+                attempt("ba(%s,%s)" % (l, r), lambda L=L, R=R: D.ba(L, R))
+                for mid in small[:7]:
+                    M = k.ty(mid)
+                    for nm in ("fc", "bc", "fx", "bx"):
+                        attempt("%s(%s,%s,%s)" % (nm, l, mid, r), lambda L=L, M=M, R=R, nm=nm: getattr(D, nm)(L, M, R))
+        for r in pool_recipes("rigid") + [("rigid", ("n", "m"), ((("box", "f", ("n", "m"), ("p",)), 0),)),
+                                          ("rigid", ("n", "m", "p"), ((("box", "g", ("m", "p"), ("n", "n")), 1),))]:
+            d = build.build(r)
+            for nw in range(0, 4):
+                for left in (False, True):
+                    attempt("curry(%s, %d, left=%s)" % (d, nw, left), lambda d=d, nw=nw, left=left: D.curry(d, nw, left))
     for l in tys:
         for r in tys:
             attempt("Swap(%s,%s)" % (l, r), lambda l=l, r=r: k.Swap(k.ty(l), k.ty(r)))
